@@ -223,6 +223,7 @@ retry:
 
 	*out = sqfs_dir_entry_create(tar->current.name, tar->current.mode, 0);
 	if ((*out) == NULL) {
+		fputs("creating tar entry: out of memory\n", stderr);
 		tar->state = SQFS_ERROR_ALLOC;
 		return tar->state;
 	}
